@@ -281,7 +281,15 @@ impl<L: Localize> OpeningHours<L> {
     /// assert_eq!(oh.state(date_2), RuleKind::Unknown);
     /// ```
     pub fn state(&self, current_time: L::DateTime) -> RuleKind {
-        self.iter_range(current_time.clone(), current_time + Duration::minutes(1))
+        // Evaluate on local time: an interval of local time built from two instants could be
+        // empty or reversed when the clock jumps back.
+        let naive_time = self.ctx.locale.naive(current_time);
+
+        let naive_end = naive_time
+            .checked_add_signed(Duration::minutes(1))
+            .unwrap_or(NaiveDateTime::MAX);
+
+        self.iter_range_naive(naive_time, naive_end)
             .next()
             .map(|dtr| dtr.kind)
             .unwrap_or(RuleKind::Closed)
